@@ -25,5 +25,6 @@ def run(rep, tier, seed):
     rep.assume("A1", "A2", "A4", "A5", "A6", "A7", "A8")
     D.run_contracts(rep, "C09", D.FIT, tier, with_lemmas=False)
     D.run_static(rep, "C09", ("purity",))      # every per-call contract presupposes that results are functions of the arguments
+    D.run_contracts(rep, "C09", D.relational(), tier, only_tagged=True)      # the same postconditions at bounded shape on the real manager classes: concrete, replayable counter-models
     t3(rep, tier, seed)
     D.link_falsifier(rep)
